@@ -48,6 +48,7 @@ fn opcode_class_table() {
 #[kani::proof]
 fn opcode_constants() {
     assert!(all::OP_PUSHDATA1.to_u8() == 0x4c && all::OP_PUSHDATA2.to_u8() == 0x4d && all::OP_PUSHDATA4.to_u8() == 0x4e);
+    assert!(all::OP_PUSHNUM_1.to_u8() == 0x51 && all::OP_PUSHNUM_16.to_u8() == 0x60);
     assert!(all::OP_PUSHNUM_2.to_u8() == 0x52 && all::OP_PUSHNUM_3.to_u8() == 0x53 && all::OP_RETURN.to_u8() == 0x6a);
     assert!(all::OP_DUP.to_u8() == 0x76 && all::OP_EQUAL.to_u8() == 0x87 && all::OP_EQUALVERIFY.to_u8() == 0x88);
     assert!(all::OP_HASH160.to_u8() == 0xa9 && all::OP_CHECKSIG.to_u8() == 0xac && all::OP_CHECKMULTISIG.to_u8() == 0xae);
